@@ -224,3 +224,31 @@ func (r *Rand) Perturb(e *field.Element) (*field.Element, string) {
 func (r *Rand) RandRepr(v *big.Int) (*field.Element, string) {
 	return r.Repr(v, r.Intn(NRecipes))
 }
+
+var two51 = new(big.Int).Lsh(big.NewInt(1), 51)
+
+// MaxLimbOperand builds, through SetBytes and one Mult32 only, an element whose limbs are as
+// large as Mult32 can make them: for an odd multiplier k near 2^32 the input limbs are chosen
+// as l_i = t_i * k^-1 mod 2^51 so that the low parts of l_i*k are t_i (2^51-1-small, or 0 for
+// limbs the pattern leaves low) and the high parts (up to ~2^32, and 19x that into limb 0)
+// are added on top without carry propagation. pattern bit i set = maximise limb i.
+func (r *Rand) MaxLimbOperand(pattern int) (*field.Element, *big.Int, string) {
+	k := (0xffffffff - uint32(r.Intn(1<<12))) | 1
+	kb := big.NewInt(int64(k))
+	kinv := new(big.Int).ModInverse(kb, two51)
+	x := new(big.Int)
+	for i := 4; i >= 0; i-- {
+		t := new(big.Int).Sub(two51, big.NewInt(int64(1+r.Intn(3))))
+		if pattern&(1<<i) == 0 {
+			t = big.NewInt(int64(r.Intn(4)))
+		}
+		l := new(big.Int).Mul(t, kinv)
+		l.Mod(l, two51)
+		x.Lsh(x, 51)
+		x.Add(x, l)
+	}
+	b := ref.IntToLE32(x)
+	in := feFromBytes(b[:])
+	e := new(field.Element).Mult32(in, k)
+	return e, ref.FMul(x, kb), fmt.Sprintf("R2:maxlimb(pattern=%05b,k=%#x)", pattern, k)
+}
